@@ -174,10 +174,10 @@ func collectFieldFlow(ff *fieldFlow, info *types.Info, root ast.Node) {
 func flowOfFuncs(fns []*load.FuncInfo) *fieldFlow {
 	ff := newFieldFlow()
 	for _, fi := range fns {
-		if fi == nil || fi.Decl.Body == nil {
+		if fi == nil || fi.Body() == nil {
 			continue
 		}
-		collectFieldFlow(ff, fi.Pkg.TypesInfo, fi.Decl)
+		collectFieldFlow(ff, fi.Pkg.TypesInfo, fi.Node())
 	}
 	return ff
 }
